@@ -114,7 +114,25 @@ def c13_shapes(tier):
     out += [(4, 4, 0), (0, 4, 4), (4, 0, 4), (1, 4, 1)]
     return out
 
+def c10_shapes(tier):
+    # (family, ops, duplicate-in-pool)
+    if tier == 'quick':
+        return [(f, 2, 0) for f in range(5)] + [(0, 2, 1), (3, 2, 1)]
+    return [(f, 3, 0) for f in range(5)] + [(f, 2, 1) for f in range(5)] + [(3, 3, 1), (4, 3, 1)]
+
 PROPS = {
+    'C10': {
+        'level': 'model_checking',
+        'bounds': 'five managers; pool of two valid rules on r1, one on r2, one invalid on r1 and (selected shapes) a rule equal to the first under another id; '
+                  'operation sequences of length 2 (quick) / 3 (thorough) over {load-all(S), load-for-resource(r,S), append(x), clear, clear-resource(r)} with S from 7 (5) representative subsets and r in {r1,r2,""}; '
+                  'hash-set/map iteration orders inside the managers: every element first, remaining elements in insertion or reversed order (all orders up to 3 elements)',
+        'assumptions': ['reported rules are compared as sets under rule equality after every operation; return values only for duplicate-free calls',
+                        'HashSet lookups of a rule that is equal but hashed differently (different id) are modelled as misses'],
+        'scenarios': [
+            {'name': 'c10_manager', 'shapes': {'quick': c10_shapes('quick'), 'thorough': c10_shapes('thorough')},
+             'witnesses': ['appended', 'invalid-append', 'identical-reload', 'empty-resource-refused'], 'selftest': {'quick': 10, 'thorough': 40}},
+        ],
+    },
     'C03': {
         'level': 'model_checking',
         'bounds': 'strategies slow-ratio/error-ratio/error-count; 1-2 breakers on one resource (second with doubled retry timeout); 1-2 window buckets of a 1000 ms window; '
